@@ -44,6 +44,39 @@ fn c14_syntax_error_at_any_position() {
     core::mem::forget((e, t));
 }
 
+macro_rules! error_range_harness {
+    ($name:ident, $src:expr, $at_eof:expr) => {
+        #[kani::proof]
+        #[kani::unwind(6)]
+        #[kani::stub(alloc::fmt::format, crate::verif_common::format_stub)]
+        fn $name() {
+            let src: &'static str = $src;
+            let offset: usize = kani::any();
+            kani::assume(offset <= src.len() && src.is_char_boundary(offset));
+            // known finding KF-C14-eof-range: region "the error is located at the end of the input"
+            kani::assume((offset == src.len()) == $at_eof);
+            let col: u16 = kani::any();
+            let mut t = tokenizer_at(src, 1, col, offset);
+            let e = t.syntax_error("x");
+            let sp = crate::error::verif_kani::span_of(&e).unwrap();
+            let (s, en) = (sp.start_offset as usize, sp.end_offset as usize);
+            // the reported byte range is a valid slice of the source: in bounds, on character boundaries
+            assert!(s == offset && s <= en);
+            assert!(en <= src.len());
+            assert!(src.is_char_boundary(s) && src.is_char_boundary(en));
+            kani::cover!(true);
+            core::mem::forget((e, t));
+        }
+    };
+}
+
+// @verif-block props=C14 tier=quick cap=600 group=core doc=the_byte_range_reported_by_a_lexer_error_located_at_ANY_character_boundary_of_the_listed_source_(ASCII,_2-byte_and_3-byte_characters_mixed)_is_a_valid_slice:_in_bounds_and_on_character_boundaries;_the_sub-region_"error_at_end_of_input"_is_the_recorded_known_finding_(twin_harness)
+error_range_harness!(c14_error_range_ascii, "ab", false);
+error_range_harness!(c14_error_range_2byte, "a\u{e9}b", false);
+error_range_harness!(c14_error_range_3byte, "\u{20ac}x", false);
+error_range_harness!(c14_error_range_known_eof, "a\u{e9}", true); // known=KF-C14-eof-range
+// @verif-end
+
 macro_rules! advance_harness {
     ($name:ident, $src:expr, $nl:expr, $chars:expr) => {
         #[kani::proof]
